@@ -330,6 +330,10 @@ func (fs LocalFileSystem) Move(ctx context.Context, src, dst string, options *Mo
 		return false, err
 	}
 
+	// The source must exist before an existing destination is removed
+	if _, err := os.Stat(srcPath); err != nil {
+		return false, errFromOS(err)
+	}
 	if err := checkDistinctPaths(srcPath, dstPath); err != nil {
 		return false, err
 	}
